@@ -132,4 +132,34 @@ def fromCsv (t : List Char) : Option (List Row) :=
   let t := normCRLF t
   readAll (t.length + 1) t none []
 
+
+/-! ### the `comma` option (format/csv/csv.go:56-58 decodeCSV, :83-85 toCSV): BOTH directions take the
+    first BYTE of the option string as the delimiter rune (`rune(opts.Comma[0])`), so for a
+    multi-byte character such as "§" (C2 A7) the delimiter is U+00C2 on both sides — odd, but the
+    pair agrees; an empty option keeps ','.  encoding/csv rejects a delimiter that is NUL, '"', CR
+    or LF (validDelim); the reader also rejects a delimiter equal to the comment character. -/
+
+def delimOfOption (opt : List UInt8) : Char :=
+  match opt with
+  | [] => ','
+  | b :: _ => Char.ofNat b.toNat
+
+def validDelim (c : Char) : Bool := c.toNat != 0 && c != '"' && c != '\r' && c != '\n'
+
+/-- the delimiter `to_csv({comma: opt})` writes with -/
+def toCsvDelim (opt : List UInt8) : Option Char :=
+  let c := delimOfOption opt
+  if validDelim c then some c else none
+
+/-- the delimiter `from_csv({comma: opt})` splits at (comment character '#') -/
+def fromCsvDelim (opt : List UInt8) : Option Char :=
+  let c := delimOfOption opt
+  if validDelim c && c != '#' then some c else none
+
+/-- REGRESSION MODEL (seeded change S3-C14-1): to_csv decoding the first UTF-8 rune instead -/
+def toCsvDelimRune (optChars : List Char) : Option Char :=
+  match optChars with
+  | [] => some ','
+  | c :: _ => if validDelim c then some c else none
+
 end FqModel.Csv
